@@ -12,14 +12,14 @@ Open Scope Z_scope.
 (* concrete syntax printed by the engine (numbers are Z in case files) *)
 Definition T (k : Z) (v : verdict) : matcher := MPrim (thr (Z.to_nat k) v).
 Definition A (k c : Z) (y n : verdict) : matcher := MPrim (at_byte (Z.to_nat k) (byte_of_N (Z.to_N c)) y n).
-Definition N (sets : list (list matcher)) : matcher := MNot sets.
+Definition Nt (sets : list (list matcher)) : matcher := MNot sets.
 Definition hC (k : Z) : handler := HCons (Z.to_nat k).
 Definition hS (rs : list route) : handler := HSub rs 0.
 Definition R (mss : list (list matcher)) (hs : list handler) : route := Route mss hs.
 Definition ch (hex : string) : arrival := Chunk (unhex hex).
-Definition eRun (d i a : Z) := ERun (Z.to_nat d) (Z.to_nat i) (Z.to_nat a).
+Definition eRun (d i : Z) (hex : string) := ERun (Z.to_nat d) (Z.to_nat i) (unhex hex).
 Definition eRead (d i : Z) (hex : string) := ERead (Z.to_nat d) (Z.to_nat i) (unhex hex).
-Definition eFb (d a : Z) := EFallback (Z.to_nat d) (Z.to_nat a).
+Definition eFb (d : Z) (hex : string) := EFallback (Z.to_nat d) (unhex hex).
 Definition eDrop (d : Z) (w : dropwhy) := EDrop (Z.to_nat d) w.
 Definition eHErr (d i : Z) := EHErr (Z.to_nat d) (Z.to_nat i).
 Definition ePanic (d i : Z) := EPanic (Z.to_nat d) (Z.to_nat i).
@@ -33,9 +33,9 @@ Definition why_eqb (a b : dropwhy) : bool :=
 Definition ev_eqb (a b : ev) : bool :=
   match a, b with
   | EArm, EArm | EClear, EClear => true
-  | ERun d i n, ERun d' i' n' => Nat.eqb d d' && Nat.eqb i i' && Nat.eqb n n'
+  | ERun d i x, ERun d' i' x' => Nat.eqb d d' && Nat.eqb i i' && bytes_eqb x x'
   | ERead d i x, ERead d' i' x' => Nat.eqb d d' && Nat.eqb i i' && bytes_eqb x x'
-  | EFallback d n, EFallback d' n' => Nat.eqb d d' && Nat.eqb n n'
+  | EFallback d x, EFallback d' x' => Nat.eqb d d' && bytes_eqb x x'
   | EDrop d w, EDrop d' w' => Nat.eqb d d' && why_eqb w w'
   | EHErr d i, EHErr d' i' => Nat.eqb d d' && Nat.eqb i i'
   | EPanic d i, EPanic d' i' => Nat.eqb d d' && Nat.eqb i i'
@@ -49,6 +49,9 @@ Fixpoint evs_eqb (a b : list ev) : bool :=
   | _, _ => false
   end.
 
+(* ESkip is a ghost event of the model (a cached verdict was used); the implementation cannot show it *)
+Definition visible (e : ev) : bool := match e with ESkip _ _ _ => false | _ => true end.
+
 Inductive c02case :=
 | RC (rs : list route) (script : list arrival) (obs : list ev) (closed : Z) (panicked : bool).
 
@@ -59,7 +62,7 @@ Definition check (c : c02case) : bool :=
   match c with
   | RC rs script obs closed panicked =>
       let r := s_serve corr_fuel rs [] script in
-      evs_eqb (evs (res_st r)) obs
+      evs_eqb (filter visible (evs (res_st r))) obs
       && (closed =? 1)     (* Server.handle closes the connection exactly once whatever the outcome *)
       && match r with
          | Crash _ => panicked
